@@ -180,6 +180,21 @@ func short(o obsEntry) string {
 func runBoth(sc *scenario, known map[int]exm) (payload string, base, out []obsEntry, beof, oeof bool, berr, oerr string) {
 	st := labels.NewSymbolTable()
 	switch sc.Format {
+	case "proto":
+		payload = sc.protoText
+		bp, err := textparse.New(sc.protoPayload, "application/vnd.google.protobuf", st, textparse.ParserOptions{
+			KeepClassicOnClassicAndNativeHistograms: sc.Keep})
+		if err != nil || bp == nil {
+			panic(fmt.Sprint("textparse.New: ", err))
+		}
+		base, beof, berr = record(bp, true, known)
+		wp, err := textparse.New(sc.protoPayload, "application/vnd.google.protobuf", labels.NewSymbolTable(), textparse.ParserOptions{
+			ConvertClassicHistogramsToNHCB: true, KeepClassicOnClassicAndNativeHistograms: sc.Keep})
+		if err != nil || wp == nil {
+			panic(fmt.Sprint("textparse.New: ", err))
+		}
+		out, oeof, oerr = record(wp, true, known)
+		return
 	case "scripted":
 		bp := &scripted{es: sc.es, failAt: sc.FailAt}
 		base, beof, berr = record(bp, sc.ParseST, known)
@@ -240,7 +255,7 @@ func main() {
 		}()
 		payload, base, out, beof, oeof, berr, oerr := runBoth(sc, known)
 		if strings.HasPrefix(berr, "harness:") || strings.HasPrefix(oerr, "harness:") {
-			panic(berr + oerr)
+			panic("base: " + berr + " / out: " + oerr + "\n" + payload)
 		}
 		// le table: strconv.ParseFloat of every le label value in the base stream
 		tab := map[string]string{}
@@ -294,8 +309,11 @@ func main() {
 				nontrivial = true
 			}
 		}
-		term := fmt.Sprintf("mkCase %s %s %s %s\n %s\n %s %s\n %s %s",
-			zlit(int64(id)), gallina.Bool(sc.Keep), gallina.Bool(sc.ParseST), gallina.Bool(sc.Format == "om"),
+		if sc.Format == "proto" && nh > 0 {
+			nontrivial = true
+		}
+		term := fmt.Sprintf("mkCase %s %s %s %s %s\n %s\n %s %s\n %s %s",
+			zlit(int64(id)), gallina.Bool(sc.Keep), gallina.Bool(sc.ParseST || sc.Format == "proto"), gallina.Bool(sc.Format == "om"), gallina.Bool(sc.Format == "proto"),
 			gallina.List(tl), gallina.List(bl), gallina.Bool(beof), gallina.List(ol), gallina.Bool(oeof))
 		cf.Add(term)
 		inShard++
@@ -335,7 +353,7 @@ func main() {
 	for _, c := range corpus() {
 		emit(c.sc, c.known, c.name)
 	}
-	n := f.Count(420, 30000)
+	n := f.Count(300, 9000)
 	for i := 0; i < n; i++ {
 		r := gen.Fork(f.Seed, i)
 		kind := 0
@@ -344,6 +362,14 @@ func main() {
 		}
 		sc, known := build(r, kind)
 		emit(sc, known, "")
+		if i%5 == 4 {
+			// protobuf stream: the protobuf parser's own conversion path
+			rp := gen.Fork(f.Seed^0x5bd1e995, i)
+			psc := &scenario{Format: "proto", Keep: rp.Bool(), Shape: "clean-proto", FailAt: -1, classes: map[string]bool{}}
+			var pk map[int]exm
+			psc.protoPayload, psc.protoText, pk = buildProto(rp, psc)
+			emit(psc, pk, "")
+		}
 	}
 	if inShard > 0 || id == 0 {
 		flush()
